@@ -78,6 +78,30 @@ macro_rules! downstream_idioms {
   };
 }
 
+// fresh key material, the way the documentation mints it: Key::<N>::try_new_random() for every size that a key or nonce
+// of some protocol has (24 / 32 nonces, 32 symmetric, 48 P-384 secret, 64 Ed25519 pair) and a few that none has - the
+// call is generic over N, so a program asking for any N compiled and worked
+macro_rules! fresh_material {
+  ($($n:literal),*) => {
+    $(
+      {
+        let a = ok!(Key::<$n>::try_new_random(), concat!("Key::<", stringify!($n), ">::try_new_random()"));
+        let b = ok!(Key::<$n>::try_new_random(), concat!("Key::<", stringify!($n), ">::try_new_random()"));
+        if a.as_ref().len() != $n || ($n >= 16 && a.as_ref() == b.as_ref()) {
+          fail(concat!("Key::<", stringify!($n), ">::try_new_random(): wrong size or the same bytes twice"));
+        }
+      }
+    )*
+  };
+}
+#[cfg(feature = "core")]
+fn fresh_key_material() {
+  use rusty_paseto::core::Key;
+  fresh_material!(1, 16, 24, 32, 33, 48, 49, 64, 96, 128);
+}
+#[cfg(not(feature = "core"))]
+fn fresh_key_material() {}
+
 // ---------------------------------------------------------------- key helpers
 macro_rules! local_keys {
   ($V:ident, $key:ident) => {
@@ -121,6 +145,17 @@ mod core_layer {
         let n = ok!(Key::<32>::try_from(NONCE), "nonce");
         let nonce = PasetoNonce::<$V, Local>::from(&n);
         downstream_idioms!(key, n);
+        {
+          // freshly minted key and nonce
+          let fk = PasetoSymmetricKey::<$V, Local>::from(ok!(Key::<32>::try_new_random(), "fresh symmetric key"));
+          let fnb = ok!(Key::<32>::try_new_random(), "fresh nonce");
+          let fnonce = PasetoNonce::<$V, Local>::from(&fnb);
+          let t = ok!(Paseto::<$V, Local>::builder().set_payload(Payload::from(MSG)).try_encrypt(&fk, &fnonce), concat!($label, " core encrypt with a fresh key"));
+          let back = ok!(Paseto::<$V, Local>::try_decrypt(&t, &fk, None), concat!($label, " core decrypt with a fresh key"));
+          if back != MSG {
+            fail(concat!($label, " core round trip with a fresh key mismatch"));
+          }
+        }
         let token = ok!(
           Paseto::<$V, Local>::builder().set_payload(Payload::from(MSG)).set_footer(Footer::from(FOOT)).try_encrypt(&key, &nonce),
           concat!($label, " core encrypt")
@@ -149,6 +184,17 @@ mod core_layer {
         let nonce = PasetoNonce::<$V, Local>::from(&n);
         downstream_idioms!(key, n);
         errors_are_ordinary::<PasetoError>();
+        {
+          // freshly minted key and nonce
+          let fk = PasetoSymmetricKey::<$V, Local>::from(ok!(Key::<32>::try_new_random(), "fresh symmetric key"));
+          let fnb = ok!(Key::<32>::try_new_random(), "fresh nonce");
+          let fnonce = PasetoNonce::<$V, Local>::from(&fnb);
+          let t = ok!(Paseto::<$V, Local>::builder().set_payload(Payload::from(MSG)).try_encrypt(&fk, &fnonce), concat!($label, " core encrypt with a fresh key"));
+          let back = ok!(Paseto::<$V, Local>::try_decrypt(&t, &fk, None, None), concat!($label, " core decrypt with a fresh key"));
+          if back != MSG {
+            fail(concat!($label, " core round trip with a fresh key mismatch"));
+          }
+        }
         {
           // one core builder asked twice with the same inputs: the same token twice
           let mut b = Paseto::<$V, Local>::builder();
@@ -239,6 +285,15 @@ mod core_layer {
     );
     if back != MSG || !token.starts_with("v3.public.") {
       fail("v3.public core round trip mismatch");
+    }
+    {
+      // a freshly minted secret key (48 random bytes are a P-384 scalar) signs
+      let fresh = ok!(Key::<48>::try_new_random(), "fresh p384 secret");
+      let fresh_sk = PasetoAsymmetricPrivateKey::<V3, Public>::from(&fresh);
+      let t = ok!(Paseto::<V3, Public>::builder().set_payload(Payload::from(MSG)).try_sign(&fresh_sk), "v3.public core sign with a fresh secret key");
+      if !t.starts_with("v3.public.") {
+        fail("v3.public core: token signed with a fresh key has the wrong header");
+      }
     }
     say("OK v3.public core");
   }
@@ -356,6 +411,40 @@ mod prelude_layer {
       if json["aud"] != "smoke audience" || json["answer"] != 42 {
         fail(concat!($label, " prelude second token mismatch"));
       }
+      {
+        // a token that never expires: the documented opt-out, read back without the default checks
+        let mut nb = PasetoBuilder::<$V, $P>::default();
+        nb.set_claim(SubjectClaim::from("smoke subject")).set_no_expiration_danger_acknowledged().set_footer(Footer::from(FOOT));
+        body!(@assert nb, $with_assertion);
+        let t = ok!(nb.build(&$sk), concat!($label, " prelude build of a non-expiring token"));
+        let mut gp = GenericParser::<$V, $P>::default();
+        gp.set_footer(Footer::from(FOOT));
+        body!(@assert gp, $with_assertion);
+        let json = ok!(gp.parse(&t, &$pk), concat!($label, " parse of a non-expiring token"));
+        if json["sub"] != "smoke subject" || !json["exp"].is_null() {
+          fail(concat!($label, " prelude: non-expiring token carries exp or lost its subject"));
+        }
+        // every registered claim through the batteries-included builder, checked and validated by its parser
+        let mut fb = PasetoBuilder::<$V, $P>::default();
+        fb.set_claim(IssuerClaim::from("smoke issuer"))
+          .set_claim(TokenIdentifierClaim::from("smoke id"))
+          .set_claim(ok!(ExpirationClaim::try_from("2099-01-01T00:00:00+00:00"), "exp claim"))
+          .set_claim(ok!(NotBeforeClaim::try_from("2001-01-01T00:00:00+00:00"), "nbf claim"))
+          .set_claim(ok!(IssuedAtClaim::try_from("2001-01-01T00:00:00+00:00"), "iat claim"));
+        let t = ok!(fb.build(&$sk), concat!($label, " prelude build with every registered claim"));
+        let mut fp = PasetoParser::<$V, $P>::default();
+        fp.check_claim(IssuerClaim::from("smoke issuer"))
+          .check_claim(TokenIdentifierClaim::from("smoke id"))
+          .validate_claim(SubjectClaim::default(), &|_k, _v| Ok(()));
+        // (no subject in this token: whether a validator registered for an absent claim refuses is not judged here)
+        let _ = fp.parse(&t, &$pk);
+        let mut fp = PasetoParser::<$V, $P>::default();
+        fp.check_claim(IssuerClaim::from("smoke issuer")).validate_claim(TokenIdentifierClaim::default(), &|k, v| if *v == "smoke id" { Ok(()) } else { Err(PasetoClaimError::Unexpected(k.to_string())) });
+        let json = ok!(fp.parse(&t, &$pk), concat!($label, " prelude parse with a check and a validator"));
+        if json["iss"] != "smoke issuer" || json["exp"] != "2099-01-01T00:00:00+00:00" {
+          fail(concat!($label, " prelude: registered claims mismatch"));
+        }
+      }
       errors_are_ordinary::<GenericBuilderError>();
       errors_are_ordinary::<GenericParserError>();
       say(concat!("OK ", $label, " prelude"));
@@ -436,6 +525,7 @@ fn backward() {
 }
 
 fn main() {
+  fresh_key_material();
   forward();
   PASS.store(1, std::sync::atomic::Ordering::SeqCst);
   backward();
